@@ -11,13 +11,18 @@ Open Scope N_scope.
 Definition conv (s : CharSet) : cs := (CharSet_start s, CharSet_end s).
 Definition convp (p : CharPartition) : part :=
   {| ivs := map conv (CharPartition_list p); wit := CharPartition_comp_witness p |}.
+Definition convc (c : ClassId) : classid :=
+  match c with ClassId_Interval i => CInt i | ClassId_Complement => CComp end.
+Definition convr (c : CoverResult) : cover :=
+  match c with CoverResult_CoveredBy i => CoveredBy i | CoverResult_DisjointFromAll => DisjointFromAll
+             | CoverResult_Overlaps => Overlaps end.
 
 Lemma conv_inj s o : conv s = conv o -> s = o.
 Proof. destruct s as [a b], o as [c d]. cbv [conv CharSet_start CharSet_end]. congruence. Qed.
 
 Ltac gunfold :=
   autounfold with rs2v in *;
-  cbv [conv convp option_map bind fst snd CharSet_start CharSet_end
+  cbv [conv convp convc convr option_map bind fst snd CharSet_start CharSet_end
        CharPartition_list CharPartition_comp_witness ivs wit
        u32_add u32_mul u32_sub U32MAX usize_add usize_sub usize_div
        cs_contains cs_is_before pnew plen pfrom_set ppush pget pstart pend pinterval ppick_iv
@@ -56,6 +61,12 @@ Ltac gfinish :=
   first [ reflexivity | congruence | (exfalso; lia) | solve [ctor_eq] ].
 
 Ltac glink := intros; gunfold; gcases; gbools; gfinish.
+
+(* ---- the element functions used by the searches ---- *)
+Lemma link_cs_contains s x : M_CharSet_contains s x = Some (cs_contains (conv s) x).
+Proof. destruct s. glink. Qed.
+Lemma link_cs_is_before s x : M_CharSet_is_before s x = Some (cs_is_before (conv s) x).
+Proof. destruct s. glink. Qed.
 
 (* ---- constructors ---- *)
 Lemma link_new : option_map convp M_CharPartition_new = Some pnew.
@@ -110,6 +121,7 @@ Ltac nth_facts :=
 Ltac glist :=
   intros;
   repeat match goal with p : CharPartition |- _ => destruct p as [? ?] end;
+  repeat match goal with c : ClassId |- _ => destruct c end;
   gunfold; rewrite ?nth_conv, ?nth_error_map_conv, ?map_length; gunfold;
   repeat (match goal with
           | |- context [match ?x with _ => _ end] =>
@@ -124,8 +136,146 @@ Ltac glist :=
 Lemma link_len p : M_CharPartition_len p = Some (plen (convp p)).
 Proof. glist. Qed.
 
+
 Lemma link_get p i : M_CharPartition_get p i = Some (pget (convp p) i).
 Proof. glist. Qed.
+
+
+Lemma link_start p i : M_CharPartition_start p i = Some (pstart (convp p) i).
+Proof. glist. Qed.
+
+Lemma link_end p i : M_CharPartition_end p i = Some (pend (convp p) i).
+Proof. glist. Qed.
+
+(* pick(i) panics exactly when i is out of range *)
+Lemma link_pick p i : M_CharPartition_pick p i = ppick_iv (convp p) i.
+Proof. glist. Qed.
+
+Lemma link_empty_complement p : M_CharPartition_empty_complement p = Some (pempty_complement (convp p)).
+Proof. glist. Qed.
+
+Lemma link_pick_complement p : M_CharPartition_pick_complement p = Some (ppick_complement (convp p)).
+Proof. glist. Qed.
+
+Lemma link_valid_class_id p c : M_CharPartition_valid_class_id p c = Some (pvalid (convp p) (convc c)).
+Proof. glist. Qed.
+
+
+(* pick_in_class panics exactly where the model does: interval index out of range, or the
+   complementary class of a partition that covers the alphabet (assert!) *)
+Lemma link_pick_in_class p c : M_CharPartition_pick_in_class p c = ppick (convp p) (convc c).
+Proof. glist. Qed.
+
+(* ---- loops: one step = rewrite a call of a translated function by its link lemma, or case
+   analysis on the innermost scrutinee; leaves are closed by reflexivity, arithmetic contradiction or
+   the induction hypothesis ---- *)
+Ltac lnorm := cbv [bind option_map cs_contains cs_is_before]; cbn [fst snd conv CharSet_start CharSet_end].
+Ltac Zify.zify_post_hook ::= Z.div_mod_to_equations.
+Ltac lstep :=
+  match goal with
+  | |- context [nth_error ?l ?a] =>
+      match goal with
+      | |- context [nth_error l ?b] =>
+          tryif constr_eq a b then fail else (replace a with b by lia)
+      end
+  | |- context [M_CharSet_contains ?s ?x] => rewrite (link_cs_contains s x)
+  | |- context [M_CharSet_is_before ?s ?x] => rewrite (link_cs_is_before s x)
+  | |- context [nth_error (map conv ?l) ?i] => rewrite (nth_error_map_conv l i)
+  | |- context [match ?x with _ => _ end] =>
+      lazymatch x with
+      | context [match _ with _ => _ end] => fail
+      | _ => destruct x eqn:?
+      end
+  end; lnorm.
+Ltac lleaf IH :=
+  first [ reflexivity | discriminate | (exfalso; lia) | congruence
+        | (rewrite IH; first [ reflexivity | (f_equal; lia) ]) | (f_equal; lia) ].
+
+(* ---- class_of_char: the binary search, same fuel on both sides ---- *)
+Definition char_res (r : option (loopres ClassId (nat * nat))) : option classid :=
+  match r with
+  | Some (LoopReturn c) => Some (convc c)
+  | Some (LoopDone _) => Some CComp
+  | None => None
+  end.
+
+Lemma link_bs_char fuel l x i j :
+  char_res (CharPartition_class_of_char_binary_search_loop1 fuel l x i j) = bs_char fuel (map conv l) x i j.
+Proof.
+  revert i j; induction fuel as [|fuel IH]; intros i j; [reflexivity|].
+  cbn [CharPartition_class_of_char_binary_search_loop1 bs_char].
+  cbv [usize_sub usize_div usize_add cs_contains cs_is_before]. lnorm.
+  repeat lstep; lleaf IH.
+Qed.
+
+Lemma link_class_of_char p x :
+  option_map convc (M_CharPartition_class_of_char (S (length (CharPartition_list p))) p x)
+  = pclass_of_char (convp p) x.
+Proof.
+  destruct p as [l w]. autounfold with rs2v. unfold pclass_of_char, convp, plen, ivs, CharPartition_list.
+  rewrite map_length, <- link_bs_char. unfold bind.
+  destruct (CharPartition_class_of_char_binary_search_loop1 _ l x 0 (length l)) as [[c|[a b]]|]; reflexivity.
+Qed.
+
+(* ---- interval_cover ---- *)
+Definition cover_res (r : option (loopres nat (nat * nat))) : option nat :=
+  match r with
+  | Some (LoopReturn i) => Some i
+  | Some (LoopDone (i, _)) => Some i
+  | None => None
+  end.
+
+Lemma link_bs_cover fuel l x i j :
+  cover_res (CharPartition_interval_cover_binary_search_loop1 fuel l x i j) = bs_cover fuel (map conv l) x i j.
+Proof.
+  revert i j; induction fuel as [|fuel IH]; intros i j; [reflexivity|].
+  cbn [CharPartition_interval_cover_binary_search_loop1 bs_cover].
+  replace (i + 1)%nat with (S i) by lia.
+  cbv [usize_sub usize_div usize_add]. lnorm.
+  repeat lstep; lleaf IH.
+Qed.
+
+Lemma link_interval_cover p s :
+  option_map convr (M_CharPartition_interval_cover (S (length (CharPartition_list p))) p s)
+  = pinterval_cover (convp p) (conv s).
+Proof.
+  pose proof (link_get p) as G. pose proof (link_start p) as S1.
+  unfold M_CharPartition_interval_cover, CharPartition_interval_cover, M_CharPartition_interval_cover_binary_search,
+    CharPartition_interval_cover_binary_search, pinterval_cover.
+  pose proof (link_bs_cover (S (length (CharPartition_list p))) (CharPartition_list p) (CharSet_start s) 0
+                            (length (CharPartition_list p))) as H.
+  replace (plen (convp p)) with (length (CharPartition_list p)) by (destruct p; cbn; rewrite map_length; reflexivity).
+  change (ivs (convp p)) with (map conv (CharPartition_list p)).
+  change (fst (conv s)) with (CharSet_start s). change (snd (conv s)) with (CharSet_end s).
+  rewrite <- H. unfold bind at 1 3.
+  destruct (CharPartition_interval_cover_binary_search_loop1 _ _ _ _ _) as [[i|[i j]]|]; cbn [cover_res]; try reflexivity.
+  all: cbn [bind]; rewrite G; unfold bind;
+    destruct (pget (convp p) i) as [ai bi]; cbn [fst snd];
+    rewrite S1;
+    replace (i + 1)%nat with (S i) by lia;
+    destruct (CharSet_start s <? ai), (CharSet_end s <? ai), (CharSet_start s <=? bi), (CharSet_end s <=? bi),
+             (CharSet_end s <? pstart (convp p) (S i)); reflexivity.
+Qed.
+
+Definition convres (r : result ClassId Error) : option classid :=
+  match r with Ok c => Some (convc c) | Err _ => None end.
+
+Lemma link_class_of_set p s :
+  option_map convres (M_CharPartition_class_of_set (S (length (CharPartition_list p))) p s)
+  = pclass_of_set (convp p) (conv s).
+Proof.
+  unfold M_CharPartition_class_of_set, CharPartition_class_of_set, pclass_of_set.
+  rewrite <- link_interval_cover. unfold bind.
+  destruct (M_CharPartition_interval_cover _ p s) as [[i| |]|]; reflexivity.
+Qed.
+
+(* an Err result is always AmbiguousCharSet *)
+Lemma link_class_of_set_err fuel p s e :
+  M_CharPartition_class_of_set fuel p s = Some (Err e) -> e = Error_AmbiguousCharSet.
+Proof.
+  unfold M_CharPartition_class_of_set, CharPartition_class_of_set, bind.
+  destruct (M_CharPartition_interval_cover fuel p s) as [[i| |]|]; congruence.
+Qed.
 
 
 (* ---- merge_partitions: the two-pointer sweep, same fuel on both sides ---- *)
@@ -466,3 +616,25 @@ Proof.
   exists (Nat.max f (merge_fuel acc (convp (RE_deriv_class x)))). split; [exact Hx|]. split; [lia|].
   apply (fold_ok_more f); [lia|exact Hf].
 Qed.
+
+(* ---- the accessors of RE that read the cached derivative classes ---- *)
+Lemma link_re_empty_complement e : M_RE_empty_complement e = Some (pempty_complement (rcls (conv_re e))).
+Proof. unfold M_RE_empty_complement, RE_empty_complement. rewrite link_empty_complement, rcls_conv. reflexivity. Qed.
+Lemma link_re_num_deriv_classes e : M_RE_num_deriv_classes e = Some (plen (rcls (conv_re e))).
+Proof. unfold M_RE_num_deriv_classes, RE_num_deriv_classes. rewrite link_len, rcls_conv. reflexivity. Qed.
+Lemma link_re_valid_class_id e c : M_RE_valid_class_id e c = Some (pvalid (rcls (conv_re e)) (convc c)).
+Proof. unfold M_RE_valid_class_id, RE_valid_class_id. rewrite link_valid_class_id, rcls_conv. reflexivity. Qed.
+Lemma link_re_is_empty e : M_RE_is_empty e = Some (is_empty_node (conv_re e)).
+Proof.
+  unfold M_RE_is_empty, RE_is_empty, is_empty_node. rewrite rnode_conv. destruct (RE_expr e); reflexivity.
+Qed.
+Lemma link_re_pick_class_rep e c : M_RE_pick_class_rep e c = ppick (rcls (conv_re e)) (convc c).
+Proof. unfold M_RE_pick_class_rep, RE_pick_class_rep. rewrite link_pick_in_class, rcls_conv. reflexivity. Qed.
+Lemma link_re_class_of_char e x :
+  option_map convc (M_RE_class_of_char (S (length (CharPartition_list (RE_deriv_class e)))) e x)
+  = pclass_of_char (rcls (conv_re e)) x.
+Proof. unfold M_RE_class_of_char, RE_class_of_char. rewrite link_class_of_char, rcls_conv. reflexivity. Qed.
+Lemma link_re_class_of_set e s :
+  option_map convres (M_RE_class_of_set (S (length (CharPartition_list (RE_deriv_class e)))) e s)
+  = pclass_of_set (rcls (conv_re e)) (conv s).
+Proof. unfold M_RE_class_of_set, RE_class_of_set. rewrite link_class_of_set, rcls_conv. reflexivity. Qed.
